@@ -13,5 +13,6 @@ python3 translator/parts.py ${TV_REPO:-/repo} lean/Tv/GenPart.lean
 python3 translator/fdiff.py ${TV_REPO:-/repo} lean/Tv/GenFd.lean
 python3 translator/finals.py ${TV_REPO:-/repo} lean/Tv/GenFin.lean
 python3 translator/quant.py ${TV_REPO:-/repo} lean/Tv/GenQuant.lean
+python3 translator/ranks.py ${TV_REPO:-/repo} lean/Tv/GenRank.lean
 (cd lean && lake build Tv tvmodel)
 (cd harness && cargo build --features polars)
